@@ -118,6 +118,9 @@ func (g *nsGen) next() SOp {
 		g.shadow.Mkdir(join(dir, name), 0o755)
 	case k < 40:
 		o.Kind, o.Dir, o.Name = "symlink", dir, linkNames[rng.Intn(2)]
+		if rng.Intn(5) == 0 {
+			o.Name = name // a link under a name files and directories use too
+		}
 		o.Target = []string{"a", "b", "nowhere", "a/b", "c/d/a"}[rng.Intn(5)]
 		g.shadow.Symlink(o.Target, join(dir, o.Name))
 	case k < 48:
@@ -140,8 +143,8 @@ func (g *nsGen) next() SOp {
 		o.Kind, o.Dir, o.Name = "rename", dir, g.childName(dir, false)
 		o.Dir2 = dirs[rng.Intn(len(dirs))]
 		o.Name2 = names[rng.Intn(len(names))]
-		if isLinkName(o.Name) {
-			o.Name2 = linkNames[rng.Intn(2)]
+		if isLinkName(o.Name) && rng.Intn(3) > 0 {
+			o.Name2 = linkNames[rng.Intn(2)] // mostly links keep to their own names; sometimes one takes a file's or directory's name
 		}
 		if info, err := g.shadow.Lstat(join(dir, o.Name)); err == nil && info.IsDir() && depthOf(o.Dir2) >= g.depth {
 			o.Dir2 = "/"
